@@ -16,7 +16,7 @@ Definition fields (p : state) (si ol oc : Z) (nm : option Z) : bytes :=
 (* the comma that precedes the next segment (Finalize consumes it as a
    "trailing comma" of the current one) *)
 Definition commaof (r : list op) : bytes :=
-  match r with OMap _ _ _ _ _ :: _ => [COMMA] | _ => [] end.
+  match r with OMap _ _ _ _ _ :: _ => [COMMA] | ONull _ :: _ => [COMMA] | _ => [] end.
 
 (* prevState after a mapping *)
 Definition after (p : state) (gc si ol oc : Z) (nm : option Z) : state :=
@@ -41,13 +41,26 @@ Qed.
 
 Lemma ebytes_sep ops lb p : sepb lb = true -> ebytes ops lb p = commaof ops ++ ebytes ops 0 p.
 Proof.
-  intro H. destruct ops as [|[|gc si ol oc nm] r].
+  intro H. destruct ops as [|[|gc si ol oc nm|gc] r].
   - reflexivity.
   - rewrite !ebytes_newline. reflexivity.
   - destruct (ebytes_map_gen gc si ol oc nm r lb p) as (l1 & H1 & E1).
     destruct (ebytes_map_gen gc si ol oc nm r 0 p) as (l2 & H2 & E2).
     rewrite E1, E2, H, sepb_0. cbn [commaof app].
     rewrite (ebytes_lb r l1 l2) by congruence. reflexivity.
+  - rewrite !ebytes_null, !null_seg_eq, H, sepb_0.
+    rewrite (ebytes_lb r (last ((if true then [COMMA] else []) ++ encodeVLQ (gc - gcol p)) lb)
+                         (last ((if false then [COMMA] else []) ++ encodeVLQ (gc - gcol p)) 0))
+      by (rewrite !sepb_last_enc; reflexivity).
+    reflexivity.
+Qed.
+
+(* a one-field segment with no separator pending *)
+Lemma ebytes_null0 gc r lb p : sepb lb = false ->
+  ebytes (ONull gc :: r) lb p = encodeVLQ (gc - gcol p) ++ commaof r ++ ebytes r 0 (null_state p gc).
+Proof.
+  intro H. rewrite ebytes_null, null_seg_eq, H.
+  rewrite (ebytes_sep r _ (null_state p gc) (sepb_last_enc _ _ _)). reflexivity.
 Qed.
 
 (* with no separator pending: gen-col field, other fields, comma, rest *)
@@ -69,9 +82,10 @@ Definition tail_ok (C R : bytes) : Prop :=
 
 Lemma tail_ok_ops r p : tail_ok (commaof r) (ebytes r 0 p).
 Proof.
-  destruct r as [|[|gc si ol oc nm] r]; unfold tail_ok; cbn [commaof].
+  destruct r as [|[|gc si ol oc nm|gc] r]; unfold tail_ok; cbn [commaof].
   - right. split; [reflexivity|]. left. reflexivity.
   - right. split; [reflexivity|]. right. rewrite ebytes_newline0. eexists. reflexivity.
+  - left. reflexivity.
   - left. reflexivity.
 Qed.
 
@@ -118,6 +132,13 @@ Proof.
     + rewrite DecodeVLQ_stop by apply b64_SEMI. reflexivity.
 Qed.
 
+Lemma skip_fields_tail C R : tail_ok C R -> skip_fields (C ++ R) = Some (C ++ R).
+Proof.
+  intros [->|[-> [->|[t ->]]]]; cbn [app]; [|reflexivity|].
+  - unfold skip_fields. rewrite !DecodeVLQ_stop by apply b64_COMMA. reflexivity.
+  - unfold skip_fields. rewrite !DecodeVLQ_stop by apply b64_SEMI. reflexivity.
+Qed.
+
 Lemma consumed_app (a b : bytes) : consumed (a ++ b) b = a.
 Proof.
   unfold consumed. rewrite app_length.
@@ -151,28 +172,39 @@ Definition step_result (f : nat) (d : Z) (F C R run out : bytes) (gen : lc) (pd 
       fin_loop f R (F ++ C) (out ++ run ++ encodeVLQ (d + delta - pd)) gen' delta shifts'
   end.
 
-Lemma fin_loop_step f d p si ol oc nm C R run out gen pd shifts : tail_ok C R ->
-  fin_loop (S f) (encodeVLQ d ++ fields p si ol oc nm ++ C ++ R) run out gen pd shifts =
-  step_result f d (fields p si ol oc nm) C R run out gen pd shifts.
+Lemma fin_loop_step_gen f d F C R run out gen pd shifts : tail_ok C R ->
+  skip_fields (F ++ C ++ R) = Some (C ++ R) ->
+  fin_loop (S f) (encodeVLQ d ++ F ++ C ++ R) run out gen pd shifts =
+  step_result f d F C R run out gen pd shifts.
 Proof.
-  intro HT. unfold step_result.
+  intros HT HF. unfold step_result.
   destruct (enc_cons d) as (c & t & E & Hc & _).
   cbn [fin_loop]. rewrite E at 1. cbn [app].
   replace (c =? SEMI) with false by lia.
-  replace (c :: t ++ fields p si ol oc nm ++ C ++ R)
-    with (encodeVLQ d ++ fields p si ol oc nm ++ C ++ R) by (rewrite E; reflexivity).
+  replace (c :: t ++ F ++ C ++ R)
+    with (encodeVLQ d ++ F ++ C ++ R) by (rewrite E; reflexivity).
   rewrite vlq_roundtrip_all. cbv beta iota.
-  rewrite (skip_fields_ok _ _ _ _ _ _ _ HT). cbv beta iota.
+  rewrite HF. cbv beta iota.
   destruct (cross (length shifts) shifts (fst gen, snd gen + d) false) as [shifts' crossed].
   rewrite (strip_comma _ _ HT).
-  replace (encodeVLQ d ++ fields p si ol oc nm ++ C ++ R)
-    with ((encodeVLQ d ++ fields p si ol oc nm ++ C) ++ R) by (rewrite <- !app_assoc; reflexivity).
+  replace (encodeVLQ d ++ F ++ C ++ R)
+    with ((encodeVLQ d ++ F ++ C) ++ R) by (rewrite <- !app_assoc; reflexivity).
   rewrite consumed_app.
-  replace (fields p si ol oc nm ++ C ++ R) with ((fields p si ol oc nm ++ C) ++ R)
+  replace (F ++ C ++ R) with ((F ++ C) ++ R)
     by (rewrite <- app_assoc; reflexivity).
   rewrite consumed_app.
   reflexivity.
 Qed.
+
+Lemma fin_loop_step f d p si ol oc nm C R run out gen pd shifts : tail_ok C R ->
+  fin_loop (S f) (encodeVLQ d ++ fields p si ol oc nm ++ C ++ R) run out gen pd shifts =
+  step_result f d (fields p si ol oc nm) C R run out gen pd shifts.
+Proof. intro HT. apply fin_loop_step_gen; [exact HT|apply skip_fields_ok, HT]. Qed.
+
+Lemma fin_loop_step_null f d C R run out gen pd shifts : tail_ok C R ->
+  fin_loop (S f) (encodeVLQ d ++ C ++ R) run out gen pd shifts =
+  step_result f d [] C R run out gen pd shifts.
+Proof. intro HT. exact (fin_loop_step_gen f d [] C R run out gen pd shifts HT (skip_fields_tail C R HT)). Qed.
 
 (* ---------- the same loop on events ---------- *)
 
@@ -195,14 +227,33 @@ Fixpoint fin_ops (ops : list op) (line pd : Z) (shifts : list shift) : option (l
         let delta := snd (snd sh) - snd (fst sh) in
         option_map (cons (OMap (gc + delta) si ol oc nm)) (fin_ops r line delta shifts')
     end
+  | ONull gc :: r =>
+    let '(shifts', crossed) := cross (length shifts) shifts (line, gc) false in
+    if negb crossed then option_map (cons (ONull (gc + pd))) (fin_ops r line pd shifts')
+    else match shifts' with
+    | [] => None
+    | sh :: _ =>
+      if negb (fst (snd sh) =? line)
+      then option_map (cons (ONull (gc + pd))) (fin_ops r line pd shifts')
+      else if negb (fst (fst sh) =? fst (snd sh)) then None
+      else
+        let delta := snd (snd sh) - snd (fst sh) in
+        option_map (cons (ONull (gc + delta))) (fin_ops r line delta shifts')
+    end
   end.
 
 Lemma fin_ops_commaof : forall ops line pd shifts ops',
   fin_ops ops line pd shifts = Some ops' -> commaof ops' = commaof ops.
 Proof.
-  intros [|[|gc si ol oc nm] r] line pd shifts ops' H; cbn [fin_ops] in H.
+  intros [|[|gc si ol oc nm|gc] r] line pd shifts ops' H; cbn [fin_ops] in H.
   - inversion H. reflexivity.
   - destruct (fin_ops r (line + 1) 0 shifts); cbn in H; [|discriminate]. inversion H. reflexivity.
+  - repeat match type of H with
+    | context [let '(_, _) := ?x in _] => destruct x
+    | context [if ?b then _ else _] => destruct b
+    | context [match ?l with [] => _ | _ :: _ => _ end] => destruct l
+    | context [option_map _ ?o] => destruct o; cbn [option_map] in H
+    end; try discriminate; inversion H; reflexivity.
   - repeat match type of H with
     | context [let '(_, _) := ?x in _] => destruct x
     | context [if ?b then _ else _] => destruct b
@@ -220,6 +271,12 @@ Lemma agree_after p q pd pd' gc si ol oc nm :
 Proof.
   intros (H1 & H2 & H3 & H4 & H5). unfold agree, after. cbn [gcol sidx oline ocol oname].
   repeat split; try reflexivity. destruct nm; [reflexivity|exact H5].
+Qed.
+
+Lemma agree_null p q pd pd' gc : agree p q pd -> agree (null_state p gc) (null_state q (gc + pd')) pd'.
+Proof.
+  intros (H1 & H2 & H3 & H4 & H5). unfold agree, null_state. cbn [gcol sidx oline ocol oname].
+  repeat split; try assumption; reflexivity.
 Qed.
 
 Lemma agree_nl p q pd : agree p q pd -> agree (nl_state p) (nl_state q) 0.
@@ -250,6 +307,23 @@ Proof.
   replace (gc + delta - (gcol p + pd)) with (gc - gcol p + delta - pd) by lia. reflexivity.
 Qed.
 
+Lemma ebytes_length_null gc r lb p : sepb lb = false ->
+  (length (ebytes r 0 (null_state p gc)) < length (ebytes (ONull gc :: r) lb p))%nat.
+Proof.
+  intro H. rewrite (ebytes_null0 _ _ _ _ H), !app_length.
+  destruct (enc_cons (gc - gcol p)) as (c & t & E & _). rewrite E. cbn [length]. lia.
+Qed.
+
+Lemma ebytes_shifted_null gc r r' p q pd delta :
+  agree p q pd -> commaof r' = commaof r ->
+  ebytes (ONull (gc + delta) :: r') 0 q =
+  encodeVLQ ((gc - gcol p) + delta - pd) ++ commaof r ++ ebytes r' 0 (null_state q (gc + delta)).
+Proof.
+  intros Ha Hc. rewrite (ebytes_null0 _ _ _ _ sepb_0), Hc.
+  destruct Ha as (H1 & _). rewrite H1.
+  replace (gc + delta - (gcol p + pd)) with (gc - gcol p + delta - pd) by lia. reflexivity.
+Qed.
+
 Theorem fin_loop_ops : forall ops f run out line pd shifts p q,
   (length (ebytes ops 0 p) < f)%nat -> agree p q pd ->
   fin_loop f (ebytes ops 0 p) run out (line, gcol p) pd shifts =
@@ -258,7 +332,7 @@ Proof.
   induction ops as [|o ops IH]; intros f run out line pd shifts p q Hf Ha.
   - destruct f as [|f]; [cbn in Hf; lia|]. cbn. rewrite app_nil_r. reflexivity.
   - destruct f as [|f]; [lia|].
-    destruct o as [|gc si ol oc nm].
+    destruct o as [|gc si ol oc nm|gc].
     + (* ';' *)
       rewrite ebytes_newline0 in Hf |- *. cbn [length] in Hf.
       cbn [fin_loop fin_ops]. replace (SEMI =? SEMI) with true by reflexivity.
@@ -298,5 +372,36 @@ Proof.
         by (try lia; apply (agree_after p q pd); exact Ha).
       destruct (fin_ops ops line delta (sh :: tl)) as [ops'|] eqn:E; cbn [option_map]; [|reflexivity].
       rewrite (ebytes_shifted gc si ol oc nm ops ops' p q pd delta Ha (fin_ops_commaof _ _ _ _ _ E)).
+      rewrite <- !app_assoc. reflexivity.
+    + (* a one-field segment *)
+      pose proof (ebytes_length_null gc ops 0 p sepb_0) as Hlen.
+      rewrite (ebytes_null0 _ _ _ _ sepb_0).
+      rewrite fin_loop_step_null by apply tail_ok_ops.
+      unfold step_result. cbn [fin_ops fst snd app].
+      replace (gcol p + (gc - gcol p)) with gc by lia.
+      destruct (cross (length shifts) shifts (line, gc) false) as [shifts' crossed].
+      change (line, gc) with (line, gcol (null_state p gc)).
+      destruct (negb crossed).
+      { rewrite (IH f _ out line pd shifts' (null_state p gc) (null_state q (gc + pd)))
+          by (try lia; apply (agree_null p q pd); exact Ha).
+        destruct (fin_ops ops line pd shifts') as [ops'|] eqn:E; cbn [option_map]; [|reflexivity].
+        rewrite (ebytes_shifted_null gc ops ops' p q pd pd Ha (fin_ops_commaof _ _ _ _ _ E)).
+        replace (gc - gcol p + pd - pd) with (gc - gcol p) by lia.
+        rewrite <- !app_assoc. reflexivity. }
+      destruct shifts' as [|sh tl]; [reflexivity|].
+      destruct (negb (fst (snd sh) =? line)).
+      { rewrite (IH f _ out line pd (sh :: tl) (null_state p gc) (null_state q (gc + pd)))
+          by (try lia; apply (agree_null p q pd); exact Ha).
+        destruct (fin_ops ops line pd (sh :: tl)) as [ops'|] eqn:E; cbn [option_map]; [|reflexivity].
+        rewrite (ebytes_shifted_null gc ops ops' p q pd pd Ha (fin_ops_commaof _ _ _ _ _ E)).
+        replace (gc - gcol p + pd - pd) with (gc - gcol p) by lia.
+        rewrite <- !app_assoc. reflexivity. }
+      destruct (negb (fst (fst sh) =? fst (snd sh))); [reflexivity|].
+      cbv zeta.
+      set (delta := snd (snd sh) - snd (fst sh)).
+      rewrite (IH f _ _ line delta (sh :: tl) (null_state p gc) (null_state q (gc + delta)))
+        by (try lia; apply (agree_null p q pd); exact Ha).
+      destruct (fin_ops ops line delta (sh :: tl)) as [ops'|] eqn:E; cbn [option_map]; [|reflexivity].
+      rewrite (ebytes_shifted_null gc ops ops' p q pd delta Ha (fin_ops_commaof _ _ _ _ _ E)).
       rewrite <- !app_assoc. reflexivity.
 Qed.
